@@ -99,3 +99,70 @@ func sweepContracts(propID string) func(p *Program) []*Contract {
 		return out
 	}
 }
+
+// hasMention: the function converts a non-constant string to one of the coq name types.
+func (p *Program) hasMention(fn *ssa.Function) bool {
+	for _, b := range fn.Blocks {
+		for _, ins := range b.Instrs {
+			if c, isCall := ins.(*ssa.Call); isCall {
+				if f := c.Call.StaticCallee(); f != nil && f.Name() == "StructDesc" && len(c.Call.Args) == 1 {
+					if _, isConst := c.Call.Args[0].(*ssa.Const); !isConst {
+						return true
+					}
+				}
+			}
+			ct, ok := ins.(*ssa.ChangeType)
+			if !ok {
+				continue
+			}
+			if _, isConst := ct.X.(*ssa.Const); isConst {
+				continue
+			}
+			n, ok := types.Unalias(ct.Type()).(*types.Named)
+			if !ok || n.Obj().Pkg() == nil || !strings.HasSuffix(n.Obj().Pkg().Path(), "/internal/coq") {
+				continue
+			}
+			switch n.Obj().Name() {
+			case "StructName":
+				return true
+			case "TypeIdent", "GallinaIdent":
+				if nameSource(ct.X) {
+					return true
+				}
+			}
+		}
+	}
+	return false
+}
+
+// sweepMentions (C04): every translator function that constructs a mention.
+func sweepMentions(p *Program) []*Contract {
+	var names []string
+	for name, fn := range p.fns {
+		if len(fn.Blocks) == 0 || fn.Synthetic != "" || p.pkgPathOf(fn) != translatorPkgs[0] {
+			continue
+		}
+		if strings.HasSuffix(fn.Prog.Fset.Position(fn.Pos()).Filename, "_test.go") {
+			continue
+		}
+		if p.hasMention(fn) {
+			names = append(names, name)
+		}
+	}
+	sort.Strings(names)
+	var out []*Contract
+	for _, name := range names {
+		if c := p.contracts[name]; c != nil {
+			if !contractServes(c, "C04") {
+				out = append(out, c)
+			}
+			continue
+		}
+		fn := p.fns[name]
+		short := strings.ReplaceAll(name, p.pkgPathOf(fn)+".", "")
+		c := &Contract{FuncName: short, Full: name, Pkg: p.pkgPathOf(fn), Props: []string{"C04"}, File: "(default contract: may_reject)",
+			Clauses: []*Clause{{Kind: "may_reject"}, {Kind: "noframe"}, {Kind: "use", Text: "ast"}}, Default: true}
+		out = append(out, c)
+	}
+	return out
+}
